@@ -58,9 +58,12 @@ func (d FileDisk) Write(a uint64, v Block) {
 	if a >= d.numBlocks {
 		panic(fmt.Errorf("out-of-bounds write at %v", a))
 	}
-	_, err := unix.Pwrite(d.fd, v, int64(a*BlockSize))
+	n, err := unix.Pwrite(d.fd, v, int64(a*BlockSize))
 	if err != nil {
 		panic("write failed: " + err.Error())
+	}
+	if n != len(v) {
+		panic(fmt.Errorf("short write at %v: %d of %d bytes", a, n, len(v)))
 	}
 }
 
